@@ -183,7 +183,8 @@ def check_overwrite():
     return usr_input == 'y'
 
 def embed(args):
-    dest_nii = nb.load(args.dest_nii[0])
+    #The file is overwritten below, so the data must not be memory mapped
+    dest_nii = nb.load(args.dest_nii[0], mmap=False)
     hdr = dest_nii.header
     try:
         src_wrp = NiftiWrapper(dest_nii, False)
@@ -228,7 +229,8 @@ def convert_values(values, type_str=None):
     return values
 
 def inject(args):
-    dest_nii = nb.load(args.dest_nii[0])
+    #The file is overwritten below, so the data must not be memory mapped
+    dest_nii = nb.load(args.dest_nii[0], mmap=False)
     dest_wrp = NiftiWrapper(dest_nii, make_empty=True)
     classification = tuple(args.classification)
     if not classification in dest_wrp.meta_ext.get_valid_classes():
